@@ -40,9 +40,11 @@ func (v *View) inProp(a int) bool {
 	}
 	return false
 }
+
+// delegated: token value (at the validators' current rates) of what is delegated on behalf of oracle a
 func (v *View) delegated(a int) *big.Int {
 	s := big.NewInt(0)
-	for _, d := range v.Deleg {
+	for _, d := range v.DelegTok {
 		if d[0].Int64() == int64(a) {
 			s.Add(s, d[2])
 		}
@@ -57,6 +59,36 @@ func (v *View) unbonding(a int) *big.Int {
 		}
 	}
 	return s
+}
+
+var decOne = new(big.Int).Exp(big.NewInt(10), big.NewInt(18), nil)
+
+// rateOne: validator id has never lost tokens to a staking slash (1 share = 1 token)
+func (v *View) rateOne(id int) bool {
+	for _, x := range v.Vals {
+		if x[0].Int64() == int64(id) {
+			return new(big.Int).Mul(x[1], decOne).Cmp(x[2]) == 0
+		}
+	}
+	return true
+}
+
+// scaled: amount * Tokens / DelegatorShares of validator id (what `amount` delegated before any slash is worth now)
+func (v *View) scaled(id int, amount *big.Int) *big.Int {
+	for _, x := range v.Vals {
+		if x[0].Int64() == int64(id) && x[2].Sign() > 0 {
+			r := new(big.Int).Mul(amount, x[1])
+			r.Mul(r, decOne)
+			return r.Quo(r, x[2])
+		}
+	}
+	return new(big.Int).Set(amount)
+}
+
+// near: |x - y| <= tol
+func near(x, y *big.Int, tol int64) bool {
+	d := new(big.Int).Sub(x, y)
+	return d.Abs(d).Cmp(big.NewInt(tol)) <= 0
 }
 
 // penalty per the property text: stake * fraction * times, never more than the stake
@@ -82,9 +114,17 @@ func hasInt(l []int, x int) bool {
 	return false
 }
 
+// stakeBook: the monitor's own bookkeeping of what an oracle has had delegated on its behalf: tokens it put in
+// (bond, add-delegate minus penalty), scaled down by every staking slash of the validator holding them
+// (observed on the validator's Tokens), zero after governance removal; losses = what those slashes took.
+type stakeBook struct {
+	expected, losses *big.Int
+	events           int64
+}
+
 // static invariants of one observed state.  readded[a]: governance removed oracle a since it bonded and an
 // AddDelegate of a was accepted afterwards (the trigger of finding C13-2).
-func checkState(v *View, readded map[int]bool) []violation {
+func checkState(v *View, readded map[int]bool, book map[int]*stakeBook) []violation {
 	var out []violation
 	if v.rawIdxBad != "" {
 		out = append(out, violation{"C13:index:key", v.rawIdxBad})
@@ -117,7 +157,15 @@ func checkState(v *View, readded map[int]bool) []violation {
 			out = append(out, violation{"C13:slash:exceeds", fmt.Sprintf("oracle %d: penalty exceeds stake", r.A)})
 		}
 		if r.Online {
-			if d := v.delegated(r.A); d.Cmp(r.Amount) != 0 {
+			// recorded stake = what it transferred = what is delegated on its behalf; a staking slash of the validator
+			// takes its share of the delegation (booked as losses), a few base units of share rounding per event
+			d := v.delegated(r.A)
+			bad := d.Cmp(r.Amount) != 0
+			if b := book[r.A]; b != nil && b.events > 0 {
+				tol := 3 * (b.events + 1)
+				bad = !near(d, b.expected, tol) || !near(r.Amount, new(big.Int).Add(b.expected, b.losses), tol)
+			}
+			if bad {
 				sig := "C13:stake:online-oracle-delegation-differs-from-recorded-stake"
 				if readded[r.A] {
 					sig = "C13:unbacked:add-delegate-after-governance-removal"
@@ -145,8 +193,9 @@ func checkState(v *View, readded map[int]bool) []violation {
 
 // transition checks for one executed operation (class 0 = accepted).  joined[a]: the height at which the
 // monitor saw oracle a come online last (bond, or add-delegate of an offline oracle) — its own notion of
-// "joined", not the StartHeight field of the record.
-func checkStep(op Op, class int, pre, post *View, joined map[int]int64) []violation {
+// "joined", not the StartHeight field of the record.  redelegated[a]: a re-delegation of a was accepted earlier in
+// this history (then staking may legitimately refuse the next one: transitive redelegation).
+func checkStep(op Op, class int, pre, post *View, joined map[int]int64, redelegated map[int]bool) []violation {
 	var out []violation
 	fail := func(sig, f string, a ...interface{}) { out = append(out, violation{sig, fmt.Sprintf(f, a...)}) }
 	sub := func(x, y *big.Int) *big.Int { return new(big.Int).Sub(x, y) }
@@ -162,8 +211,12 @@ func checkStep(op Op, class int, pre, post *View, joined map[int]int64) []violat
 				fail("C13:bond:bounds", "oracle %d bonded %s outside [%s, %s]", op.A, amt, pre.Threshold, max)
 			}
 			r := post.rec(op.A)
+			tol := int64(0)
+			if !pre.rateOne(op.V) {
+				tol = 2 // share rounding at a slashed validator
+			}
 			if r == nil || r.Amount.Cmp(amt) != 0 || sub(pre.BalO[op.A], post.BalO[op.A]).Cmp(amt) != 0 ||
-				sub(post.delegated(op.A), pre.delegated(op.A)).Cmp(amt) != 0 {
+				!near(sub(post.delegated(op.A), pre.delegated(op.A)), amt, tol) {
 				fail("C13:bond:accounting", "oracle %d: recorded stake, amount transferred and amount delegated differ", op.A)
 			}
 			if pre.rec(op.A) != nil {
@@ -189,12 +242,71 @@ func checkStep(op Op, class int, pre, post *View, joined map[int]int64) []violat
 			dDel := sub(post.delegated(op.A), pre.delegated(op.A))
 			// what left the account = what was delegated + the penalty due; that the recorded stake equals the
 			// delegation afterwards is the state check (checkState) for the now online oracle
-			if new(big.Int).Add(dDel, pen).Cmp(amt) != 0 {
+			tol := int64(0)
+			if !pre.rateOne(r0.V) {
+				tol = 2
+			}
+			if !near(new(big.Int).Add(dDel, pen), amt, tol) {
 				fail("C13:slash:charge", "oracle %d: add-delegate %s: delegated %s, penalty due %s", op.A, amt, dDel, pen)
 			}
 			if r1.Slash != 0 || !r1.Online {
 				fail("C13:slash:count", "oracle %d: slash count not reset / not online after paying", op.A)
 			}
+		}
+	case "gov":
+		// "after governance removes an oracle ...": a well-formed list update within the 30 % power cap must go
+		// through when every dropped oracle has its stake delegated, and what is undelegated is that stake
+		wellFormed := len(op.L) > 0 && len(op.L) <= 100
+		seen := map[int]bool{}
+		for _, a := range op.L {
+			if seen[a] {
+				wellFormed = false
+			}
+			seen[a] = true
+		}
+		total, gone := big.NewInt(0), big.NewInt(0)
+		pr := new(big.Int).Exp(big.NewInt(10), big.NewInt(20), nil)
+		removable := true
+		var dropped []oracleRec
+		for _, r := range pre.Recs {
+			pw := new(big.Int).Quo(r.Amount, pr)
+			if r.Online {
+				total.Add(total, pw)
+			}
+			if pre.inProp(r.A) && !seen[r.A] {
+				dropped = append(dropped, r)
+				if r.Online {
+					gone.Add(gone, pw)
+				}
+				entries := 0
+				for _, u := range pre.Ubds {
+					if u[0].Int64() == int64(r.A) && u[1].Int64() == int64(r.V) {
+						entries++
+					}
+				}
+				if pre.delegated(r.A).Sign() <= 0 || r.V < 0 || r.V > 2 || entries >= 7 {
+					removable = false
+				}
+			}
+		}
+		cap30 := new(big.Int).Quo(new(big.Int).Mul(big.NewInt(30), total), big.NewInt(100))
+		withinCap := gone.Sign() == 0 || gone.Cmp(cap30) < 0
+		if class != 0 && wellFormed && withinCap && removable {
+			fail("C13:removal:refused", "governance list update dropping %d staked oracle(s) within the power cap is refused: they can never be removed, their stake never withdrawn", len(dropped))
+		}
+		if class == 0 {
+			for _, r := range dropped {
+				und := sub(post.unbonding(r.A), pre.unbonding(r.A))
+				if d := pre.delegated(r.A); !near(und, d, 2) {
+					fail("C13:removal:amount", "oracle %d removed by governance: %s delegated on its behalf, %s put into the unbonding queue", r.A, d, und)
+				}
+			}
+		}
+	case "redel":
+		// a first re-delegation of an online oracle with a delegation, to another existing validator, has no reason to fail
+		if r0 := pre.rec(op.A); class != 0 && r0 != nil && r0.Online && r0.V != op.V && r0.V >= 0 && r0.V <= 2 && op.V >= 0 && op.V <= 2 &&
+			pre.delegated(op.A).Sign() > 0 && !redelegated[op.A] {
+			fail("C13:redelegate:refused", "oracle %d cannot move its stake of %s from validator %d to %d", op.A, pre.delegated(op.A), r0.V, op.V)
 		}
 	case "unbond":
 		r0 := pre.rec(op.A)
